@@ -826,6 +826,56 @@ fn check_posts(env: &mut Env, model: &mut Model, rep: &mut Report, cases: &[Post
     }
 }
 
+/// requests that never reach the url-encoded form parser (outside the model): other content types, an
+/// oversized body, multipart.  Expectation written here: refused cleanly (status >= 400, nothing
+/// enqueued), except the two that are legitimate forms.
+fn check_outside(env: &mut Env, rep: &mut Report) {
+    let sid = env.sids[0].to_string();
+    let big = format!("_scxmleventname=big&v={}", "x".repeat(40_000));
+    let mp = "--XbX\r\nContent-Disposition: form-data; name=\"_scxmleventname\"\r\n\r\nmp ev\r\n--XbX\r\nContent-Disposition: form-data; name=\"p q\"\r\n\r\na&b=c\r\n--XbX--\r\n";
+    let cases: Vec<(&str, String, Option<&str>, Option<Obs>)> = vec![
+        ("no content type", "_scxmleventname=ev&p=1".into(), None, None),
+        ("text/plain", "_scxmleventname=ev&p=1".into(), Some("text/plain"), None),
+        ("application/json", "{\"_scxmleventname\":\"ev\"}".into(), Some("application/json"), None),
+        ("multipart without a valid body", "_scxmleventname=ev".into(), Some("multipart/form-data; boundary=XbX"), None),
+        ("form larger than rocket's 32 KiB limit", big, Some("application/x-www-form-urlencoded"), None),
+        (
+            "form with a charset parameter",
+            "_scxmleventname=cs&p=1".into(),
+            Some("application/x-www-form-urlencoded; charset=UTF-8"),
+            Some(Obs { sid: env.sids[0], name: "cs".into(), data: OData::Map(vec![("p".into(), "1".into())]) }),
+        ),
+        (
+            "well-formed multipart/form-data",
+            mp.into(),
+            Some("multipart/form-data; boundary=XbX"),
+            Some(Obs { sid: env.sids[0], name: "mp ev".into(), data: OData::Map(vec![("p q".into(), "a&b=c".into())]) }),
+        ),
+    ];
+    for (what, body, ctype, expect) in cases {
+        rep.evaluations += 1;
+        rep.count("outside_model_cases");
+        let st = http_post(&sid, body.as_bytes(), ctype);
+        if let Err(e) = env.flush() {
+            rep.disagree(json!({"origin": "corpus", "machinery": e}));
+            return;
+        }
+        let evs = env.take_events();
+        let ok = match (&st, &expect) {
+            (Ok(s), None) => *s >= 400 && evs.is_empty(),
+            (Ok(s), Some(o)) => *s == 200 && evs.len() == 1 && evs[0] == *o,
+            _ => false,
+        };
+        if let Ok(s) = &st {
+            rep.count(&format!("outside_status_{}", s));
+        }
+        if !ok {
+            rep.disagree(json!({"origin": "corpus", "what": format!("request outside the model: {}", what), "status": format!("{:?}", st),
+                "events": evs.iter().map(|o| o.to_json()).collect::<Vec<_>>(), "expected": expect.map(|o| o.to_json())}));
+        }
+    }
+}
+
 // ---------------------------------------------------------------------------------------------
 // values of the sending side
 
@@ -1438,6 +1488,7 @@ pub fn run(args: &Args, model: &mut Model) -> Report {
     for c in post_corpus(&env.sids.clone()) {
         check_posts(&mut env, model, &mut rep, &[c], 1, "corpus");
     }
+    check_outside(&mut env, &mut rep);
     for c in send_corpus() {
         check_send(&mut env, model, &mut rep, &c, "corpus");
     }
